@@ -452,6 +452,85 @@ def work_later_probe_fault(chunk, st):
 CONC_ARCHS = ['CERTSMALLCA', 'CERTBIGCA', 'RSA1024', 'RSA4096', 'CLEAN', 'GEX2048OPENSSH']
 
 
+# ---- values, not shapes: what is reported must not depend on the particular bytes of the key material
+def value_cases(tier):
+    out = []
+    for b in range(256):
+        out.append(('ed', b, 'key'))
+        out.append(('edcert', b, 'key'))
+        out.append(('edcert', b, 'ca'))
+        out.append(('ed448', b, 'key'))
+    exps = [3, 17, 35, 257, 65535, 65537, 65539, 2 ** 31 - 1, 2 ** 31 + 11, 2 ** 32 + 1, 2 ** 64 + 13]
+    for bits in (2047, 2048, 3072, 3073):
+        top = 1 << (bits - 1)
+        moduli = {'sparse': top | 1, 'ones': (1 << bits) - 1, 'second-byte-zero': top | ((1 << (bits - 16)) - 1) | 1 if bits % 8 == 0 else top | 1 | (1 << 9),
+                  'alternating': top | int('55' * (bits // 8 - 1), 16) | 1, 'low-word-top-bit': top | 0x80000001, 'low-bytes-ff': top | 0xffffffffffffffff}
+        for mname, n in sorted(moduli.items()):
+            for e in (exps if mname == 'sparse' else (65537, 3)):
+                out.append(('rsa', bits, mname, n, e))
+                if mname in ('sparse', 'ones'):
+                    out.append(('rsacert', bits, mname, n, e))
+    return out
+
+
+def work_values(chunk, st):
+    for case in chunk:
+        for fmt in ('text', 'json'):
+            opts = ['-j'] if fmt == 'json' else []
+            if case[0] in ('ed', 'edcert', 'ed448'):
+                kind, b, where = case
+                pk = bytes([b]) + b'\x5a' * 31
+                if kind == 'ed':
+                    name, tree, plain = 'ssh-ed25519', wire.ed25519_blob_tree(pk), True
+                elif kind == 'ed448':
+                    name, tree, plain = 'ssh-ed448', wire.ed448_blob_tree(bytes([b]) + b'\x5a' * 56), True
+                else:
+                    name, plain = 'ssh-ed25519-cert-v01@openssh.com', False
+                    tree = wire.ed25519_cert_tree(wire.ed25519_blob_tree(pk if where == 'ca' else b'\x44' * 32), pk=pk if where == 'key' else b'\x42' * 32)
+                res, _ = run_server([name], {name: tree}, opts=opts)
+                root = ('value', kind, b, where, fmt)
+                st.execution(res.world, outcome=('value', kind, fmt, res.status), root=root, nontrivial=root, detail='light')
+                d = {'key_type': name, 'first_byte': b, 'where': where, 'fmt': fmt, 'status': res.status}
+                if res.status not in (0, 2, 3):
+                    st.violation('value:audit-failed:%s' % kind, dict(d, stdout=res.stdout[-200:]))
+                    continue
+                e = key_entry(res, fmt, name)
+                if e is None:
+                    st.violation('value:key-not-reported:%s' % kind, d)
+                    continue
+                if size_notes(e['notes']):
+                    st.violation('value:size-note-depends-on-key-bytes:%s:%s' % (kind, where), dict(d, notes=size_notes(e['notes'])))
+                want_size = None if kind == 'ed448' else 256
+                if kind != 'ed448' and e['size'] not in (256, None) or (kind == 'edcert' and e['casize'] != 256):
+                    st.violation('value:size-depends-on-key-bytes:%s:%s' % (kind, where), dict(d, reported=[e['size'], e.get('casize')]))
+                for sig, what in fingerprint_problems(res, fmt, {name: wire.serialize(tree)} if plain else {}):
+                    st.violation('value:%s:%s' % (sig, kind), dict(d, what=what))
+            else:
+                kind, bits, mname, n, ex = case
+                if kind == 'rsa':
+                    names = ['rsa-sha2-512', 'ssh-rsa']
+                    tree = wire.rsa_blob_tree(n=n, e=ex)
+                    hk = {'ssh-rsa': tree}
+                else:
+                    names = ['rsa-sha2-512-cert-v01@openssh.com']
+                    tree = wire.cert_blob_tree(b'ssh-rsa-cert-v01@openssh.com', [wire.L(wire.mpint_bytes(ex), 'e'), wire.L(wire.mpint_bytes(n), 'n')], wire.rsa_blob_tree(n=n, e=ex))
+                    hk = {names[0]: tree}
+                res, _ = run_server(names, hk, opts=opts)
+                root = ('value', kind, bits, mname, ex, fmt)
+                st.execution(res.world, outcome=('value', kind, fmt, res.status), root=root, nontrivial=root, detail='light')
+                d = {'key_type': kind, 'bits': bits, 'modulus': mname, 'exponent': ex, 'fmt': fmt, 'status': res.status}
+                if res.status not in (0, 2, 3):
+                    st.violation('value:audit-failed:%s' % kind, dict(d, stdout=res.stdout[-200:]))
+                    continue
+                if kind == 'rsa':
+                    judge_plain_rsa(bits, names, res, fmt, wire.serialize(tree), st, 'value:rsa:%s' % ('exponent' if mname == 'sparse' and ex != 65537 else 'modulus-pattern'))
+                else:
+                    e = key_entry(res, fmt, names[0])
+                    if e is None or e['size'] != bits or e['casize'] != bits:
+                        st.violation('value:rsacert:size-depends-on-key-bytes', dict(d, reported=None if e is None else [e['size'], e['casize']]))
+    st.sample({'key_material_value': [str(x)[:40] for x in chunk[0][:3]]}, cap=6)
+
+
 def work_concurrent(chunk, st):
     from props import c07
     for case in chunk:
@@ -469,6 +548,7 @@ def concurrent_cases(tier):
 
 def run(tier, seed):
     t0 = time.time()
+    _vc = value_cases(tier)
     st = evidence.Stats()
     sizes = rsa_sizes(tier)
     fmts = ['text', 'json'] if tier == 'quick' else ['text', 'verbose', 'json']
@@ -487,6 +567,7 @@ def run(tier, seed):
     par.pmap(work_later_probe_fault, later_probe_fault_cases(), stats=st, chunk=4)
     par.pmap(work_cert_family, cert_family_cases(), stats=st, chunk=4)
     check_other_kex(st)
+    par.pmap(work_values, _vc, stats=st, chunk=16)
     vcases = []
     for bits in H.pick(sizes, seed, 10 if tier == 'quick' else 60):
         vcases.append({'label': 'rsa %d' % bits, 'opts': ['-n', '-j'] if bits % 128 else ['-n', '-v'],
@@ -505,7 +586,8 @@ def run(tier, seed):
              'all 15 ordered selections of the RSA family x {1024,2048,3072,4096} x {text,json}; Ed25519/Ed448/ECDSA/DSS keys; %d certificate '
              'configurations (RSA and Ed25519 certificates x RSA CAs of %s bits, Ed25519 CA, ECDSA P-256/384/521 CAs) x {text,json}; every server '
              'holding two or more of {RSA key of 4 sizes, RSA certificate (3 variants), Ed25519 key, Ed25519 certificate (3 CAs), ECDSA key}; one RSA key per '
-             'key-exchange path (group1/14/16, ECDH, curve25519, GEX)' % (len(sizes), 'thresholds +-9 step 1' if tier != 'quick' else 'thresholds +-1',
+             'key-exchange path (group1/14/16, ECDH, curve25519, GEX); key-material VALUES: every first byte of an Ed25519 / Ed448 key, of a certified Ed25519 key and of its CA key; '
+             'RSA moduli of 2047/2048/3072/3073 bits in six bit patterns x 11 public exponents (3 .. 2**64+13), plain and certified' % (len(sizes), 'thresholds +-9 step 1' if tier != 'quick' else 'thresholds +-1',
                                                                          fmts, len(cert_cases()) // 2, [b for k, b in CA_KINDS if k == 'rsa']),
         assumptions=['ground truth = the key the scripted server generated (bit length of the modulus, hashlib fingerprints of the blob sent)',
                      'size of a key = bit length of its modulus / curve'],
